@@ -473,6 +473,10 @@ func (c *fctx) stmts(list []ast.Stmt, k *cont, n int) (string, error) {
 
 func (c *fctx) coerceTo(v lx, t ltype) (lx, error) {
 	// constants already carry the target type; named/unnamed conversions are identities in the model
+	if v.t.k == kBuf && t.k == kList {
+		// a written slice handed out as a value: its logical bytes
+		return lx{s: v.s + ".data", t: t}, nil
+	}
 	return v, nil
 }
 
@@ -739,6 +743,26 @@ func (c *fctx) callStmt(x *ast.CallExpr, n int) (string, string, error) {
 			return "", "", fmt.Errorf("callback kind %s in statement position", cb.kind)
 		}
 	}
+	// method of an interface parameter: msg.Encode(enc)
+	if se, ok := x.Fun.(*ast.SelectorExpr); ok {
+		if xi, ok := se.X.(*ast.Ident); ok {
+			if m, ok := c.ifaceCb[c.info.Uses[xi]]; ok && m[se.Sel.Name] != "" && len(x.Args) == 1 {
+				o := c.rootObj(x.Args[0])
+				if o == nil {
+					return "", "", fmt.Errorf("interface method call on a non-variable")
+				}
+				sig := c.info.Types[x.Fun].Type.(*types.Signature)
+				b.WriteString(c.flush(n))
+				if sig.Results().Len() == 0 {
+					b.WriteString(fmt.Sprintf("%slet %s ← %s %s\n", ind(n), c.names[o], m[se.Sel.Name], c.names[o]))
+					return b.String(), "", nil
+				}
+				r := c.fresh("r")
+				b.WriteString(fmt.Sprintf("%slet (%s, %s) ← %s %s\n", ind(n), c.names[o], r, m[se.Sel.Name], c.names[o]))
+				return b.String(), r, nil
+			}
+		}
+	}
 	q, fn := c.calleeName(x)
 	if fn == nil {
 		return "", "", fmt.Errorf("unsupported call statement %s", exprString(x.Fun))
@@ -790,9 +814,16 @@ func (c *fctx) callStmt(x *ast.CallExpr, n int) (string, string, error) {
 				args = append(args, lam)
 				continue
 			}
+			if se, ok := a.(*ast.SelectorExpr); ok {
+				if xi, ok := se.X.(*ast.Ident); ok {
+					if m, ok := c.ifaceCb[c.info.Uses[xi]]; ok && m[se.Sel.Name] != "" {
+						args = append(args, m[se.Sel.Name])
+						continue
+					}
+				}
+			}
 			id, ok := a.(*ast.Ident)
 			if !ok {
-				// method value like msg.Decode is not supported here
 				return "", "", fmt.Errorf("method-value argument not supported at %s", fset.Position(a.Pos()))
 			}
 			args = append(args, c.names[c.info.Uses[id]])
@@ -1073,6 +1104,13 @@ func (c *fctx) bufStmt(call *ast.CallExpr, n int) (string, bool, error) {
 
 // isStateCall: must the call be translated at statement level (it threads state)?
 func (c *fctx) isStateCall(call *ast.CallExpr) bool {
+	if se, ok := call.Fun.(*ast.SelectorExpr); ok {
+		if xi, ok := se.X.(*ast.Ident); ok {
+			if m, ok := c.ifaceCb[c.info.Uses[xi]]; ok && m[se.Sel.Name] != "" {
+				return true
+			}
+		}
+	}
 	if id, ok := call.Fun.(*ast.Ident); ok {
 		if cb, ok := c.cbs[c.info.Uses[id]]; ok {
 			return cb.kind != "source"
